@@ -58,6 +58,8 @@ pub enum Spec17 {
     FrameAfterResize { channels: usize, new_size: usize, bytes: bool },
     /// Context::new(bps, channels) with a channel count outside 1..=8, then a fill
     ContextChannels { channels: usize, bytes: bool },
+    /// a hashing context declared with a sample width of 0 bits (0 bytes per sample)
+    ContextWidth0 { channels: usize, bytes: bool, empty: bool },
     /// one out-of-range sample at position `t` of channel `ch` in a block of `filled` samples
     /// (buffer / block size `block`); frame level, or the last block of a 2-full-blocks stream;
     /// `cfgk`: 0 default, 1 no predictors, 2 verbatim only, 3 fixed order 0 only
@@ -241,6 +243,11 @@ pub fn grid17() -> Vec<Spec17> {
         for channels in [0usize, 9, 256, M] {
             g.push(Spec17::ContextChannels { channels, bytes });
         }
+        for channels in [1usize, 2, 8] {
+            for empty in [false, true] {
+                g.push(Spec17::ContextWidth0 { channels, bytes, empty });
+            }
+        }
     }
     // an out-of-range sample at EVERY position of a block whose length is no multiple of any
     // vector width (and at the positions around 8/16/64-sample boundaries of longer ones), under
@@ -421,6 +428,16 @@ fn domain17(s: &Spec17) -> Dom {
                 Dom::Invalid
             } else {
                 Dom::Unlisted
+            }
+        }
+        // a sample width of 0 bits is an unsupported width; Context::new cannot refuse, the fill
+        // of a non-empty block is the first call that can (an empty block carries no sample of
+        // any width: observed, not judged)
+        Spec17::ContextWidth0 { empty, .. } => {
+            if *empty {
+                Dom::Unlisted
+            } else {
+                Dom::Invalid
             }
         }
         Spec17::BadSampleAt { .. } => Dom::Invalid,
@@ -878,6 +895,15 @@ fn exec17(s: &Spec17) -> String {
                     Err(_) => "Err".into(),
                 }
             }
+            Spec17::ContextWidth0 { channels, bytes, empty } => {
+                let mut c = flacenc::source::Context::new(0, *channels);
+                let n = if *empty { 0 } else { 4 * *channels };
+                let r = if *bytes { c.fill_le_bytes(&vec![1u8; n], 0) } else { c.fill_interleaved(&vec![3i32; n]) };
+                match r {
+                    Ok(()) => format!("Ok-WRONG:a context of 0-bit samples took a block of {n} values and counts {} samples", c.total_samples()),
+                    Err(_) => "Err".into(),
+                }
+            }
             Spec17::ContextChannels { channels, bytes } => {
                 let mut c = flacenc::source::Context::new(16, *channels);
                 let r = if *bytes { c.fill_le_bytes(&[1u8; 32], 2) } else { c.fill_interleaved(&[3i32; 16]) };
@@ -923,6 +949,7 @@ fn spec17_class(s: &Spec17) -> String {
         Spec17::FrameEmpty { channels, how, bytes } => format!("encode_fixed_size_frame(FrameBuf of {channels} ch x 64 {}, {})", ["never filled", "filled with an empty slice", "filled, then filled with an empty slice"][*how as usize], if *bytes { "bytes" } else { "ints" }),
         Spec17::FrameAfterResize { channels, new_size, bytes } => format!("FrameBuf::with_size(ch={channels},64) -> resize({}) -> {} of that many samples -> encode_fixed_size_frame", v(*new_size), if *bytes { "fill_le_bytes" } else { "fill_interleaved" }),
         Spec17::ContextChannels { channels, bytes } => format!("Context::new(16, channels={}) -> {}", v(*channels), if *bytes { "fill_le_bytes" } else { "fill_interleaved" }),
+        Spec17::ContextWidth0 { channels, bytes, empty } => format!("Context::new(0, channels={channels}) -> {} of {} block", if *bytes { "fill_le_bytes(.., 0)" } else { "fill_interleaved" }, if *empty { "an empty" } else { "a 4-sample" }),
         Spec17::FrameInfoDeser { channels, bps, rate } => format!("encode_fixed_size_frame(2 ch x 16 bit buffer, StreamInfo deserialised from a document: channels={}, bits_per_sample={}, sample_rate={})", v(*channels), v(*bps), v(*rate)),
         Spec17::BadSampleAt { stream, mt, channels, block, filled, ch, t, cfgk } => format!("{}({channels} ch x 16 bit, block {block}, {filled} samples in the block, out-of-range sample at {t} of channel {ch}, config {})", if *stream { if *mt { "encode_with_fixed_block_size[mt]" } else { "encode_with_fixed_block_size[st]" } } else { "encode_fixed_size_frame" }, ["default", "no predictors", "verbatim only", "fixed order 0 only"][*cfgk as usize]),
         Spec17::StreamEncShort { mt, channels, bps, rate, block, len, hint } => format!("encode_with_fixed_block_size[{}](ch={},bps={},rate={},block={}; source of {len} samples, {})", if *mt { "mt" } else { "st" }, v(*channels), v(*bps), v(*rate), v(*block), if *hint { "with length hint" } else { "no hint" }),
@@ -977,6 +1004,7 @@ fn spec17_sig(s: &Spec17, outcome: &str) -> String {
         Spec17::FrameEmpty { .. } => "encode_frame|empty-buffer".into(),
         Spec17::FrameAfterResize { new_size, .. } => format!("FrameBuf::resize+encode_frame|{}", if *new_size == 0 { "size0" } else { "block-size" }),
         Spec17::ContextChannels { .. } => "Context::fill|channels".into(),
+        Spec17::ContextWidth0 { .. } => "Context::fill|width0".into(),
         Spec17::FrameInfoDeser { channels, bps, rate } => format!("encode_frame|deserialised-StreamInfo|{}", if *channels == 0 || *channels > 8 { "channels" } else if !(8..=24).contains(bps) { "bps" } else if *rate > 96_000 { "rate" } else { "other" }),
         Spec17::BadSampleAt { stream, mt, cfgk, .. } => format!("{}|sample-at-position|{}", if *stream { if *mt { "encode_stream[mt]" } else { "encode_stream[st]" } } else { "encode_frame" }, ["default-config", "no-predictors", "verbatim-only", "fixed0-only"][*cfgk as usize]),
         Spec17::StreamEncShort { mt, len, .. } => format!("encode_stream[{}]|invalid-argument+{}", if *mt { "mt" } else { "st" }, if *len == 0 { "empty-source" } else { "tiny-source" }),
